@@ -127,6 +127,165 @@ pub fn run_loop(sim: &mut Sim, tl: &[(u64, Ev)], blocking: bool, tail_ms: u64) -
     }
 }
 
+
+// ---------------------------------------------------------------------------------------------
+// The real processing thread against the deterministic stepper (time-insensitive configurations)
+
+const RT_KEYS: [&str; 6] = ["a", "b", "c", "d", "e", "f"];
+const RT_OUT: [&str; 8] = ["m", "n", "o", "p", "q", "r", "s", "t"];
+
+fn real_thread_strategy() -> BoxedStrategy<GCase> {
+    // actions without any timing: key, output chord, multi of keys, layer-while-held, layer-switch,
+    // transparent, no-op, use-defsrc, unmod
+    let act = |layer: usize| {
+        prop_oneof![
+            5 => (0usize..8).prop_map(|k| RT_OUT[k].to_string()),
+            2 => (0usize..8, 0usize..3).prop_map(|(k, m)| format!("{}{}", ["S-", "C-", "A-"][m], RT_OUT[k])),
+            1 => (0usize..8, 0usize..8).prop_map(|(a, b)| format!("(multi {} {})", RT_OUT[a], RT_OUT[b])),
+            2 => Just(format!("(layer-while-held l{})", 1 - layer.min(1))),
+            1 => Just(format!("(layer-switch l{})", 1 - layer.min(1))),
+            2 => Just("_".to_string()),
+            1 => Just("XX".to_string()),
+            1 => Just("use-defsrc".to_string()),
+            1 => (0usize..8).prop_map(|k| format!("(unmod {})", RT_OUT[k])),
+        ]
+    };
+    (
+        prop::collection::vec(act(0), 6..=6),
+        prop::collection::vec(act(1), 6..=6),
+        prop::collection::vec((any::<u16>(), 0usize..8), 4..30),
+    )
+        .prop_map(|(l0, l1, steps)| {
+            let cfg = format!("(defcfg log-layer-changes no)\n(defsrc a b c d e f)\n(deflayer l0 {})\n(deflayer l1 {})\n", l0.join(" "), l1.join(" "));
+            // gaps in ms: bursts (0), ordinary typing, and pauses long enough for the loop to block
+            let gaps = [0u32, 0, 1, 2, 5, 12, 30, 70];
+            let mut down = [false; 6];
+            let mut events = vec![];
+            for (ks, g) in steps {
+                let k = pick(ks, 6);
+                if gaps[g] > 0 {
+                    events.push(Ev::Gap(gaps[g]));
+                }
+                let code = crate::sim::code_of(RT_KEYS[k]);
+                events.push(if down[k] { Ev::Release(code) } else { Ev::Press(code) });
+                down[k] = !down[k];
+            }
+            for k in 0..6 {
+                if down[k] {
+                    events.push(Ev::Gap(3));
+                    events.push(Ev::Release(crate::sim::code_of(RT_KEYS[k])));
+                }
+            }
+            GCase {
+                cfg,
+                files: vec![],
+                events,
+                loop_emu: false,
+                settle_hint: 100,
+                features: vec!["real-thread".to_string()],
+            }
+        })
+        .boxed()
+}
+
+fn transitions_seq(outs: &[Out]) -> Vec<String> {
+    let mut os = crate::sim::OsState::default();
+    outs.iter()
+        .filter(|o| match o.ev {
+            crate::sim::OutEv::Down(_) | crate::sim::OutEv::Up(_) => os.apply(o),
+            _ => true,
+        })
+        .map(|o| match &o.ev {
+            crate::sim::OutEv::Down(k) => format!("↓{}", crate::sim::out_name(*k)),
+            crate::sim::OutEv::Up(k) => format!("↑{}", crate::sim::out_name(*k)),
+            other => format!("{other:?}"),
+        })
+        .collect()
+}
+
+static RT_CASE_NO: std::sync::atomic::AtomicU64 = std::sync::atomic::AtomicU64::new(0);
+
+fn run_real_thread(case: &GCase, mult: u64) -> Result<Vec<String>, String> {
+    let n = RT_CASE_NO.fetch_add(1, std::sync::atomic::Ordering::SeqCst);
+    let dir = verif_dir().join("work").join("c07rt").join(format!("{}-{n}", std::process::id()));
+    let _ = std::fs::remove_dir_all(&dir);
+    std::fs::create_dir_all(&dir).map_err(|e| e.to_string())?;
+    let path = dir.join("cfg.kbd");
+    std::fs::write(&path, &case.cfg).map_err(|e| e.to_string())?;
+    let mut l = crate::props::c15::Live::start(vec![path], mult)?;
+    l.wait(5);
+    let mut pending_gap = 0u64;
+    let mut first = true;
+    for e in &case.events {
+        match e {
+            Ev::Gap(g) => pending_gap += *g as u64,
+            Ev::Press(k) | Ev::Release(k) => {
+                if !first && pending_gap > 0 {
+                    l.wait(pending_gap);
+                }
+                first = false;
+                pending_gap = 0;
+                l.send_code(*k, matches!(e, Ev::Press(_)), 0);
+            }
+            _ => {}
+        }
+    }
+    let _ = l.settle();
+    let seq = transitions_seq(&l.outs);
+    let panicked = take_last_panic();
+    drop(l);
+    std::thread::sleep(std::time::Duration::from_millis(6));
+    let _ = take_last_panic();
+    let _ = std::fs::remove_dir_all(&dir);
+    if let Some((loc, msg)) = panicked {
+        return Err(format!("panic in the processing thread at {loc}: {msg}"));
+    }
+    Ok(seq)
+}
+
+fn judge_real_thread(case: &GCase) -> Verdict {
+    // the deterministic stepper
+    let mut sim = match Sim::new(&case.cfg) {
+        Ok(s) => s,
+        Err(_) => return Verdict::discard("gen_rejected"),
+    };
+    for e in &case.events {
+        match e {
+            Ev::Gap(g) => sim.tick_n(*g as u64),
+            Ev::Press(k) => sim.press(*k),
+            Ev::Release(k) => sim.release(*k),
+            _ => {}
+        }
+    }
+    sim.tick_n(200);
+    let want = transitions_seq(&sim.outs);
+    let mut v = Verdict::pass(want.len() >= 4);
+    v.classes.push("real-thread");
+    if case.events.iter().any(|e| matches!(e, Ev::Gap(g) if *g >= 30)) {
+        v.classes.push("real-thread-with-blocking-pause");
+    }
+    for mult in [1u64, 3] {
+        match run_real_thread(case, mult) {
+            Err(e) => return Verdict::failed("mismatch:real-thread-failed", e),
+            Ok(got) => {
+                if got == want {
+                    if mult > 1 {
+                        v.classes.push("passed-on-slower-rerun");
+                    }
+                    return v;
+                }
+                if mult == 3 {
+                    return Verdict::failed(
+                        "mismatch:real-thread-differs-from-stepper",
+                        format!("{}history: {}\n  stepper    : {}\n  real thread: {}", case.cfg, hist_to_string(&case.events), want.join(" "), got.join(" ")),
+                    );
+                }
+            }
+        }
+    }
+    v
+}
+
 impl TypedProp for C07 {
     type C = GCase;
     fn id(&self) -> &'static str {
@@ -137,7 +296,7 @@ impl TypedProp for C07 {
             level: "exploration",
             rule: "configs: grammar-generated with every time-dependent feature (tap-hold, one-shot, tap-dance, chords v1/v2, macros, sequences, caps-word, hold-for-duration, on-idle, mouse repeat, switch key-timing, zippychord, dynamic macros); histories: physically consistent, at most one event per millisecond, gaps from {1,2,T-1,T,T+1 of every timeout,50,1200,11000}. Each case is run twice on fresh instances through an emulation of the processing loop on a virtual clock: once blocking whenever the real can-block decision says so (clock jumps to the next event, no ticks) and once ticking every millisecond. Oracle: the complete output, as (virtual time, event), must be identical. Non-trivial: the blocking run blocked at least once with an event following, after a timed structure (pending decision, one-shot, macro, sequence, caps-word, eager tap-dance, v2 chord) had been active. Distinct: hash of (config, history).",
             assumptions: vec![
-                "two events in the same millisecond are excluded (a waking loop processes E-tick-E, a running one E-E-tick: inherent +-1 tick jitter of the real loop)".into(),
+                "two events in the same millisecond are excluded (a waking loop processes E-tick-E, a running one E-E-tick: inherent +-1 tick jitter of the real loop) One case in 300 is a real-thread case instead: a time-insensitive configuration (keys, output chords, multi, layer-while-held / layer-switch, transparent, use-defsrc, unmod on two layers) and a history with gaps of 0-70 ms (bursts, and pauses long enough for the loop to block) is run on the real Kanata::start_processing_loop thread in real time and must produce the same sequence of OS transitions as the deterministic stepper (a mismatch has to show again three times slower).".into(),
                 "the nanosecond remainder arithmetic of handle_time_ticks is not exercised (virtual clock)".into(),
             ],
             extra: BTreeMap::new(),
@@ -151,14 +310,29 @@ impl TypedProp for C07 {
             },
             exhaustive: false,
             distinct_by_construction: false,
-            required_classes: vec!["blocked", "blocked-after-timed-structure", "on-idle", "hold-for-duration", "rapid-event-delay>0"],
+            required_classes: vec!["blocked", "blocked-after-timed-structure", "on-idle", "hold-for-duration", "rapid-event-delay>0", "real-thread", "real-thread-with-blocking-pause"],
             hang_secs: 90,
         }
     }
-    fn gen(&self, _tier: Tier, _seed: u64, _idx: u64) -> Gen<GCase> {
-        Gen::Strat(0)
+    fn gen(&self, _tier: Tier, _seed: u64, idx: u64) -> Gen<GCase> {
+        // one case in 300 runs on the real processing thread (real time: about half a second each)
+        if idx % 300 == 299 {
+            Gen::Strat(1)
+        } else {
+            Gen::Strat(0)
+        }
     }
-    fn strategy(&self, _tier: Tier, _key: u32) -> BoxedStrategy<GCase> {
+    fn max_shrink_steps_for(&self, case: &GCase) -> usize {
+        if case.features.iter().any(|f| f == "real-thread") {
+            40
+        } else {
+            self.max_shrink_steps()
+        }
+    }
+    fn strategy(&self, _tier: Tier, key: u32) -> BoxedStrategy<GCase> {
+        if key == 1 {
+            return real_thread_strategy();
+        }
         prop::collection::vec(any::<u16>(), 0..600)
             .prop_map(|tape| {
                 let (cfg_tape, ev_tape) = tape.split_at(tape.len() * 2 / 3);
@@ -178,6 +352,9 @@ impl TypedProp for C07 {
             .boxed()
     }
     fn judge(&self, case: &GCase) -> Verdict {
+        if case.features.iter().any(|f| f == "real-thread") {
+            return judge_real_thread(case);
+        }
         let files: std::collections::HashMap<String, String> = case.files.iter().cloned().collect();
         // physically consistent histories only (the shrinker may drop a release)
         {
